@@ -316,3 +316,144 @@ contract(F, 'NetAddr._clump_bundle', props=('C06',),
          note='the first loop (sizing every element through the sizing functions, proved above) enters (size_i, '
               'element_i) for EVERY element in order (its own obligations); the list it builds is then the abstract '
               'sequence of those pairs, with size_i naming whatever the sizing function returned; sizes non-negative')
+
+
+# ---- NetAddr.send_msg / send_bundle / send_clumped_bundles (C06 clumping, C07 what time goes out) ------------------
+# send_msg / send_bundle hand exactly what they got - and this address's own target - to the OSC interface, once.
+# send_clumped_bundles: ONE bundle with the time as given only if the predicted size fits; otherwise one bundle per clump,
+# in order, none stamped before its predecessor (sc3: one nanosecond later each; so that the server keeps their order) - or all "immediately" when the
+# time is None; every clump is sent exactly once.
+NCLUMPS = z3.Int('clumps.len')
+FITS = z3.Bool('predicted_size_fits_one_datagram')
+
+
+def sn_getattr(eng, obj, name, st, node):
+    if obj.k == 'obj' and obj.oid == 'self._osc_interface' and name in ('send_msg', 'send_bundle'):
+        def send(eng, a, kw, st, node, _n=name):
+            st.trace.append(('interface.' + _n, tuple(a)))
+            return [(st, NONE)]
+        return [(st, V('func', py=('spec', send)))]
+    return None
+
+
+def deleg_post(which, fixed):
+    def post(c):
+        s = [e for e in c.trace if e[0].startswith('interface.')]
+        if len(s) != 1 or s[0][0] != 'interface.' + which:
+            return z3.BoolVal(False)
+        a = s[0][1]
+        ok = (len(a) == 2 + len(fixed) and a[0].k == 'obj' and a[0].oid == 'self._target'
+              and all(a[1 + i] is c._params[p] for i, p in enumerate(fixed))
+              and a[-1].k == 'star' and a[-1].extra['seq'] is c._params[('args' if which == 'send_msg' else 'elements')])
+        return z3.BoolVal(bool(ok))
+    return post
+
+
+def rest_kind(eng, name):
+    return V('seq', extra={'len': z3.Int(name + '.len'), 'facts': [z3.Int(name + '.len') >= 0],
+                           'get': (lambda e_, i, s_, _n=name: V('any', z3.Select(z3.Array(_n + '.items', z3.IntSort(), _CVV.Any), i)))})
+
+
+NA_FIELDS = {'NetAddr': {'_osc_interface': 'obj', '_target': 'obj'}}
+contract(F, 'NetAddr.send_msg', props=('C06', 'C07'), params={'self': 'self', 'args': rest_kind},
+         ensures=[('own-target-and-exactly-the-arguments-to-the-interface,once', deleg_post('send_msg', []))],
+         modifies=[], fields=NA_FIELDS, hooks={'getattr': sn_getattr}, class_modules={'NetAddr': F}, native=False)
+contract(F, 'NetAddr.send_bundle', props=('C06', 'C07'), params={'self': 'self', 'time': 'obj', 'elements': rest_kind},
+         ensures=[('own-target,the-time-as-given-and-exactly-the-elements-to-the-interface,once', deleg_post('send_bundle', ['time']))],
+         modifies=[], fields=NA_FIELDS, hooks={'getattr': sn_getattr}, class_modules={'NetAddr': F}, native=False)
+
+
+def scb_size_pol(eng, selfv, args, kwargs, st, node):
+    n = eng.fresh('predicted', z3.IntSort())
+    st.trace.append(('size-of', args[0], n))
+    return [(st, vint(n))]
+
+
+def scb_clump_pol(eng, selfv, args, kwargs, st, node):
+    st.trace.append(('clump', args[0]))
+    return [(st, V('seq', extra={'len': NCLUMPS, 'facts': [NCLUMPS >= 0],
+                                 'get': (lambda e_, i, s_: V('obj', oid='clump[%s]' % str(z3.simplify(i)).replace(' ', ''),
+                                                           extra={'clump': i}))}))]
+
+
+def scb_send_pol(eng, selfv, args, kwargs, st, node):
+    st.trace.append(('send_bundle', tuple(args)))
+    return [(st, NONE)]
+
+
+NS = z3.RealVal('1/1000000000')
+
+
+def scb_remember(eng, st):
+    st.ghost = dict(st.ghost)
+    st.ghost['time_at_head'] = st.env.get('time')
+
+
+def scb_pass(c, L):
+    tk = c.kinds['time']
+    if tk == 'none':
+        state = z3.BoolVal(True)
+    else:
+        t0 = z3.ToReal(c.time) if z3.is_int(c.time) else c.time
+        cur = L.time
+        cur = z3.ToReal(cur) if z3.is_int(cur) else cur
+        state = cur >= t0                                             # never before the time asked for
+    if L.phase != 'after':
+        return state
+    idx = max([i for i, e in enumerate(c.trace) if e[0] == 'loop-head'] or [-1])
+    ev = [e for e in c.trace[idx + 1:] if e[0] in ('send_bundle', 'interface.send_bundle')]
+    k = L.i - 1
+    if len(ev) != 1 or ev[0][0] != 'send_bundle' or len(ev[0][1]) != 2:
+        return z3.BoolVal(False)
+    tm, item = ev[0][1]
+    ok = item.k == 'star' and item.extra['seq'].k == 'obj' and item.extra['seq'].extra.get('clump') is not None
+    if not ok:
+        return z3.BoolVal(False)
+    cl = [state, item.extra['seq'].extra['clump'] == k]               # clump k, once
+    if tk == 'none':
+        cl.append(z3.BoolVal(tm.k == 'none'))
+    else:
+        before = c.st.ghost.get('time_at_head')
+        if not is_num(tm) or before is None or not is_num(before):
+            return z3.BoolVal(False)
+        cl += [to_real(tm) >= to_real(before),                        # never before the clump before it: the order is kept
+               to_real(tm) == cur]
+    return z3.And(*cl)
+
+
+def time_kind(eng, name):
+    # the running time is a number iff a time was given (None stays None: "immediately" for every clump)
+    return NONE if eng.entry_params['time'].k == 'none' else vreal(z3.Real(name))
+
+
+def scb_over(c, sq, k, elem):
+    return sq.extra['len'] == NCLUMPS, (elem.extra['clump'] == k if elem.k == 'obj' and elem.extra else z3.BoolVal(False))
+
+
+def scb_post(c):
+    t = c.trace
+    sizes = [e for e in t if e[0] == 'size-of']
+    clumps = [e for e in t if e[0] == 'clump']
+    heads = [e for e in t if e[0] == 'loop-head']
+    if len(sizes) != 1 or sizes[0][1] is not c._params['elements']:
+        return z3.BoolVal(False)
+    if not clumps:
+        s = [e for e in t if e[0] == 'send_bundle']
+        ok = (len(s) == 1 and len(s[0][1]) == 2 and s[0][1][0] is c._params['time'] and s[0][1][1].k == 'star'
+              and s[0][1][1].extra['seq'] is c._params['elements'])
+        # sent in one piece only when the prediction does not exceed the datagram limit (with the sizing theorem:
+        # the real size does not either), the time as given
+        return z3.And(sizes[0][2] <= z3.Int('self._MAX_UDP_DGRAM_SIZE'), z3.BoolVal(bool(ok)))
+    ok = len(clumps) == 1 and clumps[0][1] is c._params['elements'] and bool(heads)
+    return z3.BoolVal(bool(ok))                                        # else: the clumps of exactly these elements
+
+
+contract(F, 'NetAddr.send_clumped_bundles', props=('C06', 'C07'),
+         params={'self': 'self', 'time': ['none', 'int', 'real'], 'elements': rest_kind},
+         ensures=[('one-bundle-only-when-it-fits;else-every-clump-once,in-order,none-before-its-predecessor', scb_post)],
+         loops={0: _CLoop(inv=scb_pass, over=scb_over, kinds={'time': time_kind, 'item': (lambda e, n: V('obj', oid='havoc'))},
+                          havoc_hook=scb_remember)},
+         modifies=[], fields={'NetAddr': {'_osc_interface': 'obj', '_target': 'obj', '_MAX_UDP_DGRAM_SIZE': 'int'}},
+         hooks={'getattr': sn_getattr}, class_modules={'NetAddr': F}, native=False,
+         policies={'NetAddr._calc_bndl_dgram_size': scb_size_pol, 'NetAddr._clump_bundle': scb_clump_pol,
+                   'NetAddr.send_bundle': scb_send_pol})
